@@ -229,13 +229,18 @@ ValsOf(lay, T, g) ==
 -----------------------------------------------------------------------------
 (* part 3: the pipeline of the code over abstract lines                    *)
 
-\* The model follows the code AS IT IS, known findings included.  When one of them is
-\* repaired in modelx, name it here and the algorithm layer follows the repaired behaviour
-\* (otherwise the traces only show DRIFT -- never a violation):
-\*   "KF1"  a lambda whose line break needs the enclosing brackets is kept in parentheses
+\* The model follows the code as it is.  Five defects this machinery found (labels KF1..KF5
+\* of part 5) have been repaired in modelx; `Fixed` names the repaired ones and the algorithm
+\* layer follows the repaired behaviour.  Without a name here the model describes the code
+\* BEFORE that repair (the traces then show DRIFT -- never a violation):
+\*   "KF1"  a line break inside a lambda that only the enclosing brackets allowed becomes a
+\*          backslash continuation (formula.py _get_lambda_text)
+\*   "KF2"  dedent takes the indentation of the first statement as the margin; lines indented
+\*          less (a comment in column 0) are left as they are (formula.py dedent)
+\*   "KF3"  dedent leaves the lines that continue a string literal alone (formula.py dedent)
 \*   "KF4"  set_doc on a one-line body without docstring puts `"""doc"""; ` in front of it
-\*   "KF5"  set_doc escapes what cannot stand between triple quotes
-Fixed == {}
+\*   "KF5"  set_doc escapes what cannot stand between triple quotes (_quote_docstring)
+Fixed == {"KF1", "KF2", "KF3", "KF4", "KF5"}
 
 IsBlank(l)   == l.k = "blank"
 IsComment(l) == l.k \in CommentKinds
@@ -259,12 +264,25 @@ GetBlock(T) ==
                                          /\ T[i].col >= T[FirstStmt(T)].col}
     IN SubSeq(T, first, Max(code \cup cmts))
 
-\* textwrap.dedent (formula.py:106,121,237,332,341,343): the margin is the common leading
-\* white space of ALL non-blank physical lines -- comment lines and the lines inside string
-\* literals included (every line of a layout starts with the base indentation or with
-\* nothing, so the common prefix is the minimum)
-Margin(T) == Min({T[i].col : i \in {j \in DOMAIN T : ~IsBlank(T[j])}})
-Dedent(T) == [i \in DOMAIN T |-> IF IsBlank(T[i]) THEN T[i] ELSE [T[i] EXCEPT !.col = @ - Margin(T)]]
+\* textwrap.dedent (what formula.py used: is_funcdef, is_lambda, has_lambda, _init_from_source,
+\* _init_from_funcdef): the margin is the common leading white space of ALL non-blank physical
+\* lines -- comment lines and the lines inside string literals included (every line of a
+\* layout starts with the base indentation or with nothing, so the common prefix is the
+\* minimum) -- and it is taken from every line
+MarginTW(T) == Min({T[i].col : i \in {j \in DOMAIN T : ~IsBlank(T[j])}})
+DedentTW(T) == [i \in DOMAIN T |-> IF IsBlank(T[i]) THEN T[i] ELSE [T[i] EXCEPT !.col = @ - MarginTW(T)]]
+
+\* formula.dedent (the repaired one): the margin is the indentation of the first statement
+\* (first line that is neither blank nor a comment); it is taken from the lines that start
+\* with it; lines continuing a string literal are not touched
+InString(T, i) == T[i].k = "strB" \/ (T[i].k = "doc" /\ i > 1 /\ T[i - 1].k = "doc")
+Margin(T) ==
+    IF "KF2" \in Fixed THEN T[Min({i \in DOMAIN T : ~IsBlank(T[i]) /\ ~(T[i].k \in {"lead", "mid", "decocmt", "cmt", "c0cmt", "last"})})].col
+    ELSE MarginTW(T)
+Dedent(T) ==
+    [i \in DOMAIN T |->
+        IF IsBlank(T[i]) \/ ("KF3" \in Fixed /\ InString(T, i)) \/ T[i].col < Margin(T) THEN T[i]
+        ELSE [T[i] EXCEPT !.col = @ - Margin(T)]]
 
 \* ast.parse of a def text (is_funcdef formula.py:100-113; compile :348): the def and its
 \* decorators must start in column 0; a one-line body into which a docstring was glued
@@ -409,7 +427,8 @@ P_NameIsCellsName(lay, cname, o) ==
     /\ IF IsDef(lay) THEN ~o.islam /\ o.defname = cname ELSE o.islam
 
 \* from the def line on, formula.source consists of exactly the lines of the layout, in
-\* order, each indented relative to the def as it was (docstring lines apart: DocInert; the
+\* order, each indented relative to the def as it was (a line left of the def -- a comment
+\* in column 0 -- counts as being at the def's column; docstring lines apart: DocInert; the
 \* white space in front of a line that continues a string literal is part of the string:
 \* BehavesLikeFunction speaks about it, not this predicate)
 P_BodyUntouched(lay, T0, o) ==
@@ -419,14 +438,16 @@ P_BodyUntouched(lay, T0, o) ==
              inStr  == IdsOf(T0, {"strB"})
              exp == [i \in 1..(Len(T0) - h + 1) |->
                         IF IsBlank(T0[h + i - 1]) \/ T0[h + i - 1].k = "strB" THEN <<T0[h + i - 1].id * (IF IsBlank(T0[h + i - 1]) THEN 0 ELSE 1), 0>>
-                        ELSE <<T0[h + i - 1].id, T0[h + i - 1].col - T0[h].col>>]
+                        ELSE <<T0[h + i - 1].id, IF T0[h + i - 1].col < T0[h].col THEN 0
+                                                  ELSE T0[h + i - 1].col - T0[h].col>>]
              at  == {i \in DOMAIN o.lines : o.lines[i][1] = T0[h].id}
          IN /\ Cardinality(at) = 1
             /\ LET oh  == CHOOSE i \in at : TRUE
                    got == [i \in 1..(Len(o.lines) - oh + 1) |->
                               IF o.lines[oh + i - 1][1] = 0 THEN <<0, 0>>
                               ELSE IF o.lines[oh + i - 1][1] \in inStr THEN <<o.lines[oh + i - 1][1], 0>>
-                              ELSE <<o.lines[oh + i - 1][1], o.lines[oh + i - 1][2] - o.lines[oh][2]>>]
+                              ELSE <<o.lines[oh + i - 1][1], IF o.lines[oh + i - 1][2] < o.lines[oh][2] THEN 0
+                                                             ELSE o.lines[oh + i - 1][2] - o.lines[oh][2]>>]
                IN NonDocLines(docIds, got) = NonDocLines(docIds, exp)
             /\ \A i \in DOMAIN o.lines : o.lines[i][1] # -1
     ELSE LET X == SelectSeq(T0, LAMBDA l : l.k \in LamKinds)
@@ -507,7 +528,7 @@ StateLabels(lay, T0, cn, ev, dv, o) ==
 
 OpLabels(lay, T0, op, arg, cn, g, p, o) ==
     LET ev == ValsOf(lay, T0, g)
-        dv == ValsOf(lay, Dedent(T0), g)
+        dv == ValsOf(lay, DedentTW(T0), g)      \* the values if textwrap.dedent interfered
     IN
     CASE op = "capture" ->
             IF o.ok THEN StateLabels(lay, T0, cn, ev, dv, o)
